@@ -1294,9 +1294,10 @@ pub fn main(args: &Args) {
             let mut r = rng.fork();
             cases.push(gen_e2e(&mut r, thorough, &transports));
         }
-        if i % loop_every == 0 && args.u64("quic", 0) != 1 {
+        if i % loop_every == 0 {
             let mut r = rng.fork();
-            cases.push(crate::c07_loop::gen_loop(&mut r, &[0, 0, 1]));
+            let trs: &[u64] = if args.u64("quic", 0) == 1 { &[2] } else { &[0, 0, 1] };
+            cases.push(crate::c07_loop::gen_loop(&mut r, trs));
         }
     }
     if let Some(k) = args.str("only") {
